@@ -18,6 +18,7 @@
  R9 ILA degree    : every ILA whose number of links differs from 2 is corrected to a ROADM.
  R10 route index  : the live route list is never edited through the enumeration index of its snapshot (service sheet).
  R11 next node    : corresp_next_node walks over every passive line element and only those (truth table).
+ R12 checks/trims : each sanity test follows the code that fills its list; both ends of a service route list are trimmed independently.
 """
 import ast
 import re
@@ -524,5 +525,38 @@ def r11_next_node(ctx):
               'a route hop behind a fused site would not be matched and silently drop out of the request', det)
     ctx.need('R11.next-node', 1)
 
+
+def r12_checks_and_trims(ctx):
+    """R12: (a) a consistency test of sanity_check is raised as soon as its list is complete: the `if <list>: raise` follows the
+    statement (or the loop) that fills the list, before any later loop can index the tables with the unknown names (which would
+    escape as KeyError); (b) both ends of a service route list are trimmed independently"""
+    from .common import end_trims_rule
+    repo = ctx.repo
+    f = repo.func(CV, 'sanity_check')
+    body = [s for s in f.node.body if not (isinstance(s, ast.Expr) and isinstance(s.value, ast.Constant))]
+    n = 0
+    for i, st in enumerate(body):
+        if not (isinstance(st, ast.If) and isinstance(st.test, ast.Name) and any(isinstance(x, ast.Raise) for x in ast.walk(st))):
+            continue
+        lst = st.test.id
+        n += 1
+        # walk back over the preceding statements: other guards are skipped; the first other statement must define / fill the list
+        j = i - 1
+        while j >= 0 and isinstance(body[j], ast.If) and isinstance(body[j].test, ast.Name) and any(isinstance(x, ast.Raise) for x in ast.walk(body[j])):
+            j -= 1
+        prev = body[j] if j >= 0 else None
+        fills = prev is not None and (
+            (isinstance(prev, ast.Assign) and lst in {x.id for x in ast.walk(prev.targets[0]) if isinstance(x, ast.Name)}) or
+            (isinstance(prev, (ast.For, ast.While)) and any(isinstance(c, ast.Call) and isinstance(c.func, ast.Attribute) and
+                                                             c.func.attr in ('append', 'extend') and ast.unparse(c.func.value) == lst
+                                                             for c in ast.walk(prev))))
+        ctx.check('R12.check-order', f'{site(f, st)} if {lst}', bool(fills), key(f, f'check-order|{lst}'),
+                  f'the test of {lst} does not directly follow the code that fills it: a later loop runs on the inconsistent rows first and '
+                  'fails with another exception (KeyError) instead of the NetworkTopologyError naming the rows')
+    ctx.need('R12.check-order', 4)
+    end_trims_rule(ctx, 'R12.end-trims', [repo.func(SS, 'correct_xls_route_list')],
+                   'a strict route naming both its own transceivers keeps one of them and is rejected')
+    ctx.need('R12.end-trims', 1)
+
 RULES = [('R1.headers', r1_headers), ('R2.mirrors', r2_mirrors), ('R3.defaulting', r3_defaulting), ('R4.units', r4_units),
-         ('R5.errors', r5_errors), ('R6.rows', r6_rows), ('R7.node-types', r7_node_types), ('R8.cable-names', r8_cable_names), ('R9.ila-degree', r9_ila_degree), ('R10.route-index', r10_route_index), ('R11.next-node', r11_next_node)]
+         ('R5.errors', r5_errors), ('R6.rows', r6_rows), ('R7.node-types', r7_node_types), ('R8.cable-names', r8_cable_names), ('R9.ila-degree', r9_ila_degree), ('R10.route-index', r10_route_index), ('R11.next-node', r11_next_node), ('R12.checks-and-trims', r12_checks_and_trims)]
